@@ -920,7 +920,7 @@ def case_script(case):
 
 
 def campaign(ctx):
-    n_small, n_bulk = {"quick": (170, 9), "thorough": (1800, 95)}[ctx.tier]
+    n_small, n_bulk = {"quick": (200, 11), "thorough": (1800, 95)}[ctx.tier]
     runner.run_hypothesis(ctx, small_strategy(ctx.tier), runner.guarded(run_case), n_small)
     runner.run_hypothesis(ctx, bulk_strategy(ctx.tier, salt=ctx.seed * 1000 + ctx.widx), runner.guarded(run_case), n_bulk, label="bulk")
 
